@@ -1,3 +1,491 @@
-import PeliteModel.Spec.Imports
+import PeliteModel.Lemmas.Imports
+/-!
+C09 — Import descriptors, name tables and the IAT are decoded as stored.
+
+Model: `Model/Imports.lean` (`tryFrom`, `descs`, `dllName`, `intSlice`/`int`, `iatSlice`/`iat`,
+`importFromVa`, `iatTryFrom`, `iatIter`) over `View` with the typed reads of C05.
+Specification: `Spec/Imports.lean` — the layout relations `IsImportDir`, `IsImportDirZ`, `IsThunkTable`,
+`IsCStr`, the answer relations `ImportDirAnswer`, `ThunkTableAnswer`, `CStrAnswer` (each determines the
+answer uniquely) and the executable `spec…` functions the driver prints.
+
+Every theorem quantifies over ALL `v : View` — any image bytes, any buffer address, PE32 and PE32+,
+file and mapped, format specific or selected by the wrappers (`wrapFromBytes` yields such a `View`,
+`C07_wrap_selects_magic`), any overridden base address — and over all descriptor / thunk values.
+No size bound other than the global "buffers are shorter than 4 GiB" where `rva + 2` is computed.
+
+Findings recorded here (mirrored by the model, see the theorems of the same name):
+* `C09_missing_entry_partial` / `C09_missing_entry_not_null`: an image whose data-directory array is
+  too short to have the import (IAT) entry answers `Bounds`, not `Null` as the property's wording
+  ("an image without the directory reports the null error") and the documentation of `Pe::imports` ask.
+* `C09_terminator_readings_differ`: the scan stops at the first descriptor with `FirstThunk = 0`, not at
+  the first all-zero descriptor; the two readings agree exactly on well-formed directories
+  (`C09_terminator_readings`).
+* `C09_decode_high_bits_ignored`: a PE32+ by-name thunk is truncated to its low 32 bits (`va as Rva`),
+  bits 32..62 are ignored rather than rejected.
+-/
 namespace Pelite.Imports
+open Pelite Pelite.Pe
+
+/-! ### 1. the descriptor array -/
+
+/-- **The import directory is the descriptors before the terminator.** With data directory 1 =
+`(rva, _)`: if the RVA does not resolve to a 4-aligned window of bytes the slice's error is reported;
+otherwise the answer is the array of the `n` descriptors for which `IsImportDir` holds (descriptor `i`
+at `+20·i`, terminator = first `FirstThunk = 0`, terminator inside the window), and `Bounds` when
+the window ends before any terminator — never a truncated or over-long table. -/
+theorem C09_directory (v : View) (rva sz : Nat) (hd : v.dataDir 1 = some (rva, sz)) :
+    ImportDirAnswer v rva (tryFrom v) := by
+  rw [tryFrom_eq_spec]
+  exact specTryFrom_answer v rva sz hd
+
+/-- the same as an equivalence, once the window is known -/
+theorem C09_directory_exact (v : View) (rva sz : Nat) (hd : v.dataDir 1 = some (rva, sz))
+    (w : Ref) (hw : v.at (.rva rva) 0 4 = .ok w) (image : Ref) :
+    tryFrom v = .ok image ↔ ∃ n, IsImportDir v.b w.off w.len n ∧ image = ⟨w.off, n * 20, 4⟩ := by
+  have h := C09_directory v rva sz hd
+  unfold ImportDirAnswer at h
+  rw [hw] at h
+  obtain ⟨hA, hB⟩ := h
+  constructor
+  · intro hok
+    by_cases hex : ∃ n, IsImportDir v.b w.off w.len n
+    · obtain ⟨n, hn⟩ := hex
+      have := hA n hn
+      rw [hok] at this
+      cases this
+      exact ⟨n, hn, rfl⟩
+    · have := hB (fun n hn => hex ⟨n, hn⟩)
+      rw [hok] at this
+      cases this
+  · rintro ⟨n, hn, rfl⟩
+    exact hA n hn
+
+/-- the number of descriptors is determined by the bytes -/
+theorem C09_directory_unique (b : Bytes) (off len n m : Nat) (h1 : IsImportDir b off len n)
+    (h2 : IsImportDir b off len m) : n = m :=
+  h1.unique h2
+
+/-- **The iterator yields exactly the descriptors before the terminator, in order**: `n` references,
+the `i`-th to the 20 bytes at `+20·i`, each with `FirstThunk ≠ 0`; the record after the last one is
+the terminator. -/
+theorem C09_iter_exact (v : View) (rva sz : Nat) (hd : v.dataDir 1 = some (rva, sz))
+    (w : Ref) (hw : v.at (.rva rva) 0 4 = .ok w) (n : Nat) (hn : IsImportDir v.b w.off w.len n) :
+    ∃ image, tryFrom v = .ok image ∧
+      descs image = (List.range n).map (fun i => ⟨w.off + 20 * i, 20, 4⟩) ∧
+      (descs image).length = n ∧
+      (∀ i, i < n → Desc.ft v ⟨w.off + 20 * i, 20, 4⟩ ≠ 0) ∧
+      Desc.ft v ⟨w.off + 20 * n, 20, 4⟩ = 0 := by
+  refine ⟨⟨w.off, n * 20, 4⟩, (C09_directory_exact v rva sz hd w hw _).2 ⟨n, hn, rfl⟩, descs_eq _ _, ?_, ?_, ?_⟩
+  · rw [descs_eq]; simp
+  · intro i hi; exact hn.live i hi
+  · exact hn.term
+
+/-- **"All-zero terminator" vs. the field the code tests.** On a well-formed directory (inside the
+window only all-zero records have `FirstThunk = 0`) "first record with `FirstThunk = 0`" and "first
+all-zero record" are the same descriptor count. -/
+theorem C09_terminator_readings (b : Bytes) (off len : Nat) (hwf : WellFormedDir b off len) (n : Nat) :
+    IsImportDir b off len n ↔ IsImportDirZ b off len n :=
+  readings_agree b off len hwf n
+
+/-- Without well-formedness the readings differ: a live-looking record (Name = 1) with
+`FirstThunk = 0` followed by an all-zero record is an empty directory for the code (and the Windows
+loader) and a one-descriptor directory under the all-zero reading. -/
+theorem C09_terminator_readings_differ :
+    let b : Bytes := #[0,0,0,0, 0,0,0,0, 0,0,0,0, 1,0,0,0, 0,0,0,0,  0,0,0,0, 0,0,0,0, 0,0,0,0, 0,0,0,0, 0,0,0,0]
+    IsImportDir b 0 40 0 ∧ IsImportDirZ b 0 40 1 ∧ ¬ WellFormedDir b 0 40 := by
+  intro b
+  refine ⟨⟨by decide, fun i hi => by omega, by decide⟩, ⟨by decide, ?_, by decide⟩, ?_⟩
+  · intro i hi
+    have : i = 0 := by omega
+    subst this
+    decide
+  · intro h
+    exact absurd (h 0 (by decide) (by decide)) (by decide)
+
+/-! ### 2. per-DLL tables -/
+
+/-- **Import name table** (`Desc::int`): the thunks at `OriginalFirstThunk` up to the first zero thunk;
+`Bounds` if the bytes end first; the slice's error (`Null` for a missing OriginalFirstThunk,
+`Misaligned`, …) if the RVA does not resolve. -/
+theorem C09_int_table (v : View) (d : Ref) : ThunkTableAnswer v (Desc.oft v d) (intSlice v d) := by
+  unfold intSlice
+  rw [thunks_eq_spec]
+  exact specThunks_answer v _
+
+/-- **Import address table** (`Desc::iat`): the same at `FirstThunk`. -/
+theorem C09_iat_table (v : View) (d : Ref) : ThunkTableAnswer v (Desc.ft v d) (iatSlice v d) := by
+  unfold iatSlice
+  rw [thunks_eq_spec]
+  exact specThunks_answer v _
+
+/-- a table of `n` thunks is handed out as `n` element references, in order, naturally aligned -/
+theorem C09_thunk_refs (f : Fmt) (off n : Nat) :
+    thunkRefs f ⟨off, n * vaSize f, vaSize f⟩ =
+      (List.range n).map (fun i => ⟨off + vaSize f * i, vaSize f, vaSize f⟩) ∧
+    (thunkRefs f ⟨off, n * vaSize f, vaSize f⟩).length = n := by
+  refine ⟨thunkRefs_eq f off n, ?_⟩
+  rw [thunkRefs_eq]; simp
+
+/-- `int` decodes every thunk of the name table with `import_from_va`, `iat` yields the raw thunks;
+errors of the table lookup are passed on unchanged. -/
+theorem C09_table_items (v : View) (d : Ref) :
+    (∀ s, intSlice v d = .ok s →
+      int v d = .ok ((thunkRefs v.fmt s).map (fun t => importFromVa v (thunkVal v t)))) ∧
+    (∀ e, intSlice v d = .err e → int v d = .err e) ∧
+    (∀ s, iatSlice v d = .ok s → iat v d = .ok (thunkRefs v.fmt s)) ∧
+    (∀ e, iatSlice v d = .err e → iat v d = .err e) := by
+  unfold int iat
+  refine ⟨?_, ?_, ?_, ?_⟩ <;> intro x h <;> rw [h] <;> rfl
+
+/-- missing OriginalFirstThunk: the name table is reported as absent (`Null`), not as empty -/
+theorem C09_missing_oft (v : View) (d : Ref) (h : Desc.oft v d = 0) : int v d = .err .null := by
+  have := (C05_null v 0 (vaSize v.fmt)).1
+  unfold int intSlice View.dervaSliceS View.dervaSliceF
+  rw [h, this]
+  rfl
+
+/-- **DLL name**: the NUL-terminated string at `Name` (reference = string plus its NUL);
+`Encoding` if the bytes end before a NUL. -/
+theorem C09_dll_name (v : View) (d : Ref) : CStrAnswer v (Desc.name v d) (dllName v d) := by
+  unfold dllName
+  rw [cstr_eq_spec]
+  exact specCStr_answer v _
+
+/-! ### 3. thunk decoding -/
+
+/-- **A thunk decodes as the specification says** (`specImport`: ordinal = low 16 bits when the top
+bit of the thunk's own width is set; otherwise hint = the 2-aligned u16 at the RVA and name = the C
+string at RVA + 2, errors of either read passed on). -/
+theorem C09_decode (v : View) (hsz : v.img.bytes.size < 4294967296) (va : Nat) :
+    importFromVa v va = specImport v va :=
+  import_eq_spec v hsz va
+
+/-- the name of a decoded import is what `CStrAnswer` prescribes at RVA + 2 -/
+theorem C09_decode_name_spec (v : View) (rva : Nat) : CStrAnswer v rva (specCStr v rva) :=
+  specCStr_answer v rva
+
+/-- by ordinal: no read at all, the low 16 bits (no buffer bound needed) -/
+theorem C09_decode_ordinal (v : View) (va : Nat) (h : isOrdinal v.fmt va = true) :
+    importFromVa v va = .ok (.byOrdinal (va % 65536)) := by
+  unfold importFromVa
+  have : ¬ (va &&& ordinalFlag v.fmt = 0) := by
+    intro h0
+    rw [(flag_test _ _).1 h0] at h
+    cases h
+  rw [if_neg this]
+  rfl
+
+/-- **ByOrdinal iff the top bit of ITS width is set.** -/
+theorem C09_decode_ordinal_iff (v : View) (hsz : v.img.bytes.size < 4294967296) (va : Nat) :
+    (∃ o, importFromVa v va = .ok (.byOrdinal o)) ↔ isOrdinal v.fmt va = true := by
+  constructor
+  · rintro ⟨o, h⟩
+    cases hb : isOrdinal v.fmt va with
+    | true => rfl
+    | false =>
+      exfalso
+      rw [C09_decode v hsz va] at h
+      unfold specImport decodeThunk at h
+      rw [hb] at h
+      simp only [Bool.false_eq_true, if_false] at h
+      cases h1 : v.at (.rva (va % 4294967296)) 2 2 with
+      | ok w =>
+        rw [h1] at h; dsimp only at h
+        cases h2 : specCStr v (va % 4294967296 + 2) <;> rw [h2] at h <;> cases h
+      | _ => rw [h1] at h; cases h
+  · intro h
+    exact ⟨_, C09_decode_ordinal v va h⟩
+
+/-- by name, spelled out: hint = little-endian u16 at the RVA (2-aligned), name = C string at RVA + 2 -/
+theorem C09_decode_by_name (v : View) (hsz : v.img.bytes.size < 4294967296) (va : Nat)
+    (hno : isOrdinal v.fmt va = false) :
+    (∀ e, v.at (.rva (va % 4294967296)) 2 2 = .err e → importFromVa v va = .err e) ∧
+    (∀ h, v.at (.rva (va % 4294967296)) 2 2 = .ok h →
+      (∀ e, specCStr v (va % 4294967296 + 2) = .err e → importFromVa v va = .err e) ∧
+      (∀ nm, specCStr v (va % 4294967296 + 2) = .ok nm →
+        importFromVa v va = .ok (.byName (le16 v.b h.off) nm))) := by
+  rw [C09_decode v hsz va]
+  unfold specImport decodeThunk
+  rw [hno]
+  simp only [Bool.false_eq_true, if_false]
+  refine ⟨?_, ?_⟩
+  · intro e h; rw [h]
+  · intro h hh
+    rw [hh]
+    dsimp only
+    refine ⟨?_, ?_⟩ <;> intro x hx <;> rw [hx]
+
+/-- the flag is bit 31 of a 32-bit thunk and bit 63 of a 64-bit thunk -/
+theorem C09_ordinal_flag_width (va : Nat) :
+    (va < 4294967296 → (isOrdinal .pe32 va = true ↔ 2147483648 ≤ va)) ∧
+    (va < 18446744073709551616 → (isOrdinal .pe64 va = true ↔ 9223372036854775808 ≤ va)) := by
+  refine ⟨?_, ?_⟩
+  · intro h
+    show Nat.testBit va 31 = true ↔ _
+    rw [Nat.testBit_eq_decide_div_mod_eq]
+    simp only [decide_eq_true_eq, Nat.reducePow]
+    omega
+  · intro h
+    show Nat.testBit va 63 = true ↔ _
+    rw [Nat.testBit_eq_decide_div_mod_eq]
+    simp only [decide_eq_true_eq, Nat.reducePow]
+    omega
+
+/-- a conforming by-name thunk (only the 31 RVA bits set) is its own RVA in both formats -/
+theorem C09_conforming_name (f : Fmt) (va : Nat) (h : ConformingName va) : decodeThunk f va = .hintName va := by
+  unfold ConformingName at h
+  have hb : isOrdinal f va = false := by
+    cases f
+    · show Nat.testBit va 31 = false
+      rw [Nat.testBit_eq_decide_div_mod_eq]
+      simp only [decide_eq_false_iff_not, Nat.reducePow]
+      omega
+    · show Nat.testBit va 63 = false
+      rw [Nat.testBit_eq_decide_div_mod_eq]
+      simp only [decide_eq_false_iff_not, Nat.reducePow]
+      omega
+  unfold decodeThunk
+  rw [hb]
+  simp only [Bool.false_eq_true, if_false]
+  rw [Nat.mod_eq_of_lt (by omega)]
+
+/-- the flag of the *other* width is not a flag: `0x80000007` is ordinal 7 as a 32-bit thunk and a
+by-name thunk (RVA 0x80000007) as a 64-bit thunk; the ordinal keeps only 16 bits -/
+theorem C09_decode_widths :
+    decodeThunk .pe32 0x80000007 = .ordinal 7 ∧ decodeThunk .pe64 0x80000007 = .hintName 0x80000007 ∧
+    decodeThunk .pe64 0x8000000000010005 = .ordinal 5 ∧ decodeThunk .pe32 0x7FFFFFFF = .hintName 0x7FFFFFFF := by
+  decide
+
+/-- finding (mirrored): bits 32..62 of a PE32+ by-name thunk are dropped by `va as Rva` -/
+theorem C09_decode_high_bits_ignored : decodeThunk .pe64 0x100002000 = .hintName 0x2000 := by
+  decide
+
+/-! ### 4. the image-wide IAT -/
+
+/-- **Exactly ⌊Size / pointer size⌋ entries.** With data directory 12 = `(rva, size)` the IAT is the
+`n = size / ptrSize` thunks at the RVA — all of them inside the window or the slice's error, never
+fewer — handed out as `n` naturally aligned element references. When `size` is not a multiple of the
+pointer size the trailing `size % ptrSize` bytes are ignored (the code says so in a comment). -/
+theorem C09_iat_directory (v : View) (rva size : Nat) (hd : v.dataDir 12 = some (rva, size)) :
+    let sz := vaSize v.fmt
+    let n := size / sz
+    (∀ e, v.at (.rva rva) (n * sz) sz = .err e → iatTryFrom v = .err e) ∧
+    (∀ w, v.at (.rva rva) (n * sz) sz = .ok w →
+      iatTryFrom v = .ok ⟨w.off, n * sz, sz⟩ ∧ n * sz ≤ w.len ∧
+      thunkRefs v.fmt ⟨w.off, n * sz, sz⟩ = (List.range n).map (fun i => ⟨w.off + sz * i, sz, sz⟩) ∧
+      (thunkRefs v.fmt ⟨w.off, n * sz, sz⟩).length = n) ∧
+    n * sz = size - size % sz := by
+  intro sz n
+  have hd' : v.dataDir dirIAT = some (rva, size) := hd
+  refine ⟨?_, ?_, ?_⟩
+  · intro e h
+    rw [iat_eq_spec]; unfold specIat; rw [hd']; dsimp only
+    rw [h]
+  · intro w h
+    refine ⟨?_, (at_rva_sound v h).2.1, (C09_thunk_refs v.fmt w.off n).1, (C09_thunk_refs v.fmt w.off n).2⟩
+    rw [iat_eq_spec]; unfold specIat; rw [hd']; dsimp only
+    rw [h]
+  · have := Nat.div_add_mod size sz
+    have e : n * sz = sz * (size / sz) := Nat.mul_comm _ _
+    omega
+
+/-- every IAT entry is decoded by the same function as the name-table thunks (`C09_decode`) -/
+theorem C09_iat_entries (v : View) (image : Ref) :
+    iatIter v image = (thunkRefs v.fmt image).map (fun t => (t, importFromVa v (thunkVal v t))) ∧
+    (iatIter v image).length = image.len / vaSize v.fmt := by
+  refine ⟨rfl, ?_⟩
+  unfold iatIter thunkRefs
+  simp
+
+/-! ### 5. absent directories -/
+
+/-- **Directory RVA 0 ⇒ `Null`**, for the import directory and for the IAT, whatever the Size field says. -/
+theorem C09_null_dir (v : View) (sz : Nat) :
+    (v.dataDir 1 = some (0, sz) → tryFrom v = .err .null) ∧
+    (v.dataDir 12 = some (0, sz) → iatTryFrom v = .err .null) := by
+  refine ⟨?_, ?_⟩
+  · intro hd
+    have hd' : v.dataDir dirImport = some (0, sz) := hd
+    rw [tryFrom_eq_spec]; unfold specTryFrom; rw [hd']; dsimp only
+    rw [(C05_null v 0 4).1]
+  · intro hd
+    have hd' : v.dataDir dirIAT = some (0, sz) := hd
+    rw [iat_eq_spec]; unfold specIat; rw [hd']; dsimp only
+    rw [(C05_null v _ _).1]
+
+/-- The strongest true variant of "an image without the directory reports the null error" for images
+whose data-directory array is too short to contain the entry (`NumberOfRvaAndSizes ≤ 1` resp. `≤ 12`):
+the answer is the error `Bounds` — an error, never an empty or bogus table, but not `Null`. -/
+theorem C09_missing_entry_partial (v : View) :
+    (v.dataDir 1 = none → tryFrom v = .err .bounds) ∧
+    (v.dataDir 12 = none → iatTryFrom v = .err .bounds) := by
+  refine ⟨?_, ?_⟩
+  · intro hd
+    have hd' : v.dataDir dirImport = none := hd
+    unfold tryFrom; rw [hd']
+  · intro hd
+    have hd' : v.dataDir dirIAT = none := hd
+    unfold iatTryFrom; rw [hd']
+
+/-! ### 6. C01 / C02 / C03 obligations of this module -/
+
+/-- **Every reference handed out lies inside the buffer and is aligned for its type**: the descriptor
+array and each descriptor (4), DLL names and import names (1), thunk arrays and each thunk (4 / 8),
+the IAT array and each of its entries. -/
+theorem C09_refs_ok (v : View) :
+    (∀ image, tryFrom v = .ok image → RefOK v.img image ∧ ∀ d ∈ descs image, RefOK v.img d) ∧
+    (∀ d r, dllName v d = .ok r → RefOK v.img r) ∧
+    (∀ d s, iatSlice v d = .ok s → RefOK v.img s ∧ ∀ t ∈ thunkRefs v.fmt s, RefOK v.img t) ∧
+    (∀ d s, intSlice v d = .ok s → RefOK v.img s ∧ ∀ t ∈ thunkRefs v.fmt s, RefOK v.img t) ∧
+    (∀ va h nm, importFromVa v va = .ok (.byName h nm) → RefOK v.img nm) ∧
+    (∀ image, iatTryFrom v = .ok image → RefOK v.img image ∧ ∀ t ∈ thunkRefs v.fmt image, RefOK v.img t) := by
+  refine ⟨?_, ?_, ?_, ?_, ?_, ?_⟩
+  · intro image h
+    rw [tryFrom_eq_spec] at h
+    obtain ⟨rva, sz, w, n, _, hat, hn, rfl⟩ := specTryFrom_ok h
+    obtain ⟨⟨h1, h2⟩, _, hal⟩ := at_rva_sound v hat
+    have hf := hn.fits
+    rw [hal] at h2
+    have hok : RefOK v.img ⟨w.off, n * 20, 4⟩ := ⟨by show w.off + n * 20 ≤ _; omega, h2⟩
+    exact ⟨hok, descs_ok hok rfl⟩
+  · intro d r h
+    exact cstr_refok h
+  · intro d s h
+    obtain ⟨hok, hal⟩ := thunks_refok h
+    exact ⟨hok, thunkRefs_ok hok hal⟩
+  · intro d s h
+    obtain ⟨hok, hal⟩ := thunks_refok h
+    exact ⟨hok, thunkRefs_ok hok hal⟩
+  · intro va h nm hi
+    exact import_name_refok hi
+  · intro image h
+    rw [iat_eq_spec] at h
+    obtain ⟨rva, size, w, _, hat, rfl⟩ := specIat_ok h
+    obtain ⟨⟨h1, h2⟩, hm, hal⟩ := at_rva_sound v hat
+    rw [hal] at h2
+    have hok : RefOK v.img ⟨w.off, size / vaSize v.fmt * vaSize v.fmt, vaSize v.fmt⟩ :=
+      ⟨by show w.off + size / vaSize v.fmt * vaSize v.fmt ≤ _; omega, h2⟩
+    exact ⟨hok, thunkRefs_ok hok rfl⟩
+
+/-- for a constructed view the data-directory entries read by `try_from` lie inside the validated,
+dword-aligned data-directory array of the header (C07) -/
+theorem C09_datadir_in_header (f : Fmt) (k : Kind) (img : Img) (v : View) (hv : fromBytes f k img = .ok v)
+    (i : Nat) (p : Nat × Nat) (h : v.dataDir i = some p) :
+    RefOK img v.dataDirectory ∧ 8 * i + 8 ≤ v.dataDirectory.len := by
+  have hr := (C07_header_refs_ok f k img v hv).2.2.2.2.2.1
+  refine ⟨hr, ?_⟩
+  unfold View.dataDir at h
+  split at h
+  · show 8 * i + 8 ≤ 8 * numDataDirs v.fmt v.b
+    omega
+  · cases h
+
+/-- **No panic, no unchecked out-of-bounds or misaligned access, no divergence, for any image bytes**:
+every operation of the module returns a value or one of the library's errors (buffers < 4 GiB: the
+`rva + 2` of `import_from_va` cannot overflow after the hint was read, `hint_ok_bound`). -/
+theorem C09_total (v : View) (hsz : v.img.bytes.size < 4294967296) :
+    OkOrErr (tryFrom v) ∧ OkOrErr (iatTryFrom v) ∧
+    (∀ d, OkOrErr (dllName v d) ∧ OkOrErr (iatSlice v d) ∧ OkOrErr (intSlice v d) ∧
+      OkOrErr (iat v d) ∧ OkOrErr (int v d)) ∧
+    (∀ va, OkOrErr (importFromVa v va)) := by
+  refine ⟨?_, ?_, ?_, ?_⟩
+  · rw [tryFrom_eq_spec]; exact specTryFrom_okOrErr v
+  · rw [iat_eq_spec]; exact specIat_okOrErr v
+  · intro d
+    have h1 : OkOrErr (iatSlice v d) := by unfold iatSlice; rw [thunks_eq_spec]; exact specThunks_okOrErr v _
+    have h2 : OkOrErr (intSlice v d) := by unfold intSlice; rw [thunks_eq_spec]; exact specThunks_okOrErr v _
+    refine ⟨?_, h1, h2, ?_, ?_⟩
+    · unfold dllName; rw [cstr_eq_spec]; exact specCStr_okOrErr v _
+    · unfold iat; exact okOrErr_bind h1 (fun _ _ => .inl ⟨_, rfl⟩)
+    · unfold int; exact okOrErr_bind h2 (fun _ _ => .inl ⟨_, rfl⟩)
+  · intro va
+    rw [import_eq_spec v hsz]; exact specImport_okOrErr v va
+
+/-- the loops terminate with the fuel the model gives them (never `diverge`), stated on the scans -/
+theorem C09_scans_terminate (v : View) (d : Ref) :
+    tryFrom v ≠ .diverge ∧ iatSlice v d ≠ .diverge ∧ intSlice v d ≠ .diverge := by
+  have ne : ∀ {α} {o : Out α}, OkOrErr o → o ≠ .diverge := by
+    intro α o h hd
+    obtain ⟨_, h⟩ | ⟨_, h⟩ := h <;> rw [hd] at h <;> cases h
+  refine ⟨ne ?_, ne ?_, ne ?_⟩
+  · rw [tryFrom_eq_spec]; exact specTryFrom_okOrErr v
+  · unfold iatSlice; rw [thunks_eq_spec]; exact specThunks_okOrErr v _
+  · unfold intSlice; rw [thunks_eq_spec]; exact specThunks_okOrErr v _
+
+/-- the model computes what the executable specification (the driver's `spec=` answer) computes -/
+theorem C09_model_eq_spec (v : View) (hsz : v.img.bytes.size < 4294967296) :
+    tryFrom v = specTryFrom v ∧ iatTryFrom v = specIat v ∧
+    (∀ d, dllName v d = specCStr v (Desc.name v d) ∧ iatSlice v d = specThunks v (Desc.ft v d) ∧
+      intSlice v d = specThunks v (Desc.oft v d)) ∧
+    (∀ va, importFromVa v va = specImport v va) :=
+  ⟨tryFrom_eq_spec v, iat_eq_spec v,
+   fun d => ⟨cstr_eq_spec v _, thunks_eq_spec v _, thunks_eq_spec v _⟩,
+   fun va => import_eq_spec v hsz va⟩
+
+/-! ### non-vacuity: a 364-byte PE32 image (mapped), 13 data directories, no sections -/
+
+/-- headers (288 bytes), then at 288 one descriptor {OFT 328, Name 358, FT 340} and the terminator,
+at 328 the name table {352, 0x80000007, 0}, at 340 the address table (same), at 352 hint 5 "Fn\0",
+at 358 "k.dll\0"; data directory 1 = (288, 40), data directory 12 = (340, 13) -/
+def demoBytes : Bytes :=
+  #[77, 90, 0, 0, 0, 0, 0, 0, 0, 0, 0, 0, 0, 0, 0, 0, 0, 0, 0, 0, 0, 0, 0, 0, 0, 0, 0, 0, 0, 0, 0, 0,
+    0, 0, 0, 0, 0, 0, 0, 0, 0, 0, 0, 0, 0, 0, 0, 0, 0, 0, 0, 0, 0, 0, 0, 0, 0, 0, 0, 0, 64, 0, 0, 0, 80,
+    69, 0, 0, 76, 1, 0, 0, 0, 0, 0, 95, 0, 0, 0, 0, 0, 0, 0, 0, 200, 0, 2, 33, 11, 1, 14, 0, 0, 2, 0, 0,
+    0, 2, 0, 0, 0, 0, 0, 0, 0, 16, 0, 0, 0, 16, 0, 0, 0, 32, 0, 0, 0, 0, 64, 0, 0, 16, 0, 0, 0, 2, 0, 0,
+    6, 0, 0, 0, 0, 0, 0, 0, 6, 0, 0, 0, 0, 0, 0, 0, 108, 1, 0, 0, 32, 1, 0, 0, 0, 0, 0, 0, 3, 0, 64,
+    129, 0, 0, 16, 0, 0, 16, 0, 0, 0, 0, 16, 0, 0, 16, 0, 0, 0, 0, 0, 0, 13, 0, 0, 0, 0, 0, 0, 0, 0, 0,
+    0, 0, 32, 1, 0, 0, 40, 0, 0, 0, 0, 0, 0, 0, 0, 0, 0, 0, 0, 0, 0, 0, 0, 0, 0, 0, 0, 0, 0, 0, 0, 0, 0,
+    0, 0, 0, 0, 0, 0, 0, 0, 0, 0, 0, 0, 0, 0, 0, 0, 0, 0, 0, 0, 0, 0, 0, 0, 0, 0, 0, 0, 0, 0, 0, 0, 0,
+    0, 0, 0, 0, 0, 0, 0, 0, 0, 0, 0, 0, 0, 0, 0, 0, 0, 0, 0, 0, 0, 0, 0, 0, 84, 1, 0, 0, 13, 0, 0, 0,
+    72, 1, 0, 0, 0, 0, 0, 0, 0, 0, 0, 0, 102, 1, 0, 0, 84, 1, 0, 0, 0, 0, 0, 0, 0, 0, 0, 0, 0, 0, 0, 0,
+    0, 0, 0, 0, 0, 0, 0, 0, 96, 1, 0, 0, 7, 0, 0, 128, 0, 0, 0, 0, 96, 1, 0, 0, 7, 0, 0, 128, 0, 0, 0,
+    0, 5, 0, 70, 110, 0, 0, 107, 46, 100, 108, 108, 0]
+
+def demoView : View := ⟨⟨demoBytes, 0⟩, .pe32, .view, 0x400000⟩
+def demoDesc : Ref := ⟨288, 20, 4⟩
+
+/-- the image is accepted, holds a one-descriptor directory in the sense of both readings, and every
+operation answers as the theorems say (by name + by ordinal, IAT Size 13 → 3 entries) -/
+example :
+    fromBytes .pe32 .view ⟨demoBytes, 0⟩ = .ok demoView ∧
+    demoView.dataDir 1 = some (288, 40) ∧ demoView.at (.rva 288) 0 4 = .ok ⟨288, 76, 4⟩ ∧
+    tryFrom demoView = .ok ⟨288, 20, 4⟩ ∧ descs ⟨288, 20, 4⟩ = [demoDesc] ∧
+    dllName demoView demoDesc = .ok ⟨358, 6, 1⟩ ∧
+    intSlice demoView demoDesc = .ok ⟨328, 8, 4⟩ ∧ iatSlice demoView demoDesc = .ok ⟨340, 8, 4⟩ ∧
+    int demoView demoDesc = .ok [.ok (.byName 5 ⟨354, 3, 1⟩), .ok (.byOrdinal 7)] ∧
+    iat demoView demoDesc = .ok [⟨340, 4, 4⟩, ⟨344, 4, 4⟩] ∧
+    demoView.dataDir 12 = some (340, 13) ∧ iatTryFrom demoView = .ok ⟨340, 12, 4⟩ ∧
+    iatIter demoView ⟨340, 12, 4⟩ = [(⟨340, 4, 4⟩, .ok (.byName 5 ⟨354, 3, 1⟩)),
+      (⟨344, 4, 4⟩, .ok (.byOrdinal 7)), (⟨348, 4, 4⟩, .err .null)] := by
+  refine ⟨(fromBytes_ok_iff _ _ _ _).2 ⟨by decide +kernel,
+    by rw [show imageBaseField .pe32 demoBytes = 0x400000 by decide +kernel]; rfl⟩, ?_⟩
+  decide +kernel
+
+example : IsImportDir demoBytes 288 76 1 ∧ IsImportDirZ demoBytes 288 76 1 ∧
+    IsThunkTable demoBytes 328 36 4 2 ∧ IsCStr demoBytes 358 6 5 := by
+  refine ⟨⟨by decide, ?_, by decide +kernel⟩, ⟨by decide, ?_, by decide +kernel⟩, ⟨by decide, ?_, by decide +kernel⟩,
+    ⟨by decide, ?_, by decide +kernel⟩⟩
+  · intro i hi; have : i = 0 := by omega
+    subst this; decide +kernel
+  · intro i hi; have : i = 0 := by omega
+    subst this; decide +kernel
+  · intro i hi
+    have : i = 0 ∨ i = 1 := by omega
+    rcases this with rfl | rfl <;> decide +kernel
+  · intro i hi
+    have : i = 0 ∨ i = 1 ∨ i = 2 ∨ i = 3 ∨ i = 4 := by omega
+    rcases this with rfl | rfl | rfl | rfl | rfl <;> decide +kernel
+
+/-- The same image with `NumberOfRvaAndSizes` patched to 1 is still accepted, has no import entry in
+its data-directory array, and `imports()` answers `Bounds` where the property's wording asks for
+`Null` (counterexample to the unqualified statement; `C09_missing_entry_partial` is the true variant). -/
+theorem C09_missing_entry_not_null :
+    let img : Img := ⟨demoBytes.setIfInBounds 180 1, 0⟩
+    ∃ v, fromBytes .pe32 .view img = .ok v ∧ v.dataDir 1 = none ∧ tryFrom v = .err .bounds ∧
+      tryFrom v ≠ .err .null := by
+  intro img
+  refine ⟨⟨img, .pe32, .view, 0x400000⟩, (fromBytes_ok_iff _ _ _ _).2 ⟨by decide +kernel,
+    by rw [show imageBaseField .pe32 img.bytes = 0x400000 by decide +kernel]⟩, ?_⟩
+  decide +kernel
+
 end Pelite.Imports
